@@ -32,3 +32,7 @@ Proof.
   intros a s Ha Hs Hcol Hc0. rewrite Nat2Z.id.
   exact (stored_holds l1 l2 w0 H1 H2 Hw0 (cell u s1 s2) (adj_penalty u) (psi_1b u) (psi_2b u) Hd' a Ha s Hs (proj2 Hcol) Hc0).
 Qed.
+
+(* executable: the compact array the C fill loops leave for two series (rows 0..r, one list of `width` slots each) *)
+Definition c_compact_model (u : usettings) (s1 s2 : list point) : list (list cost) :=
+  compact_model (Z.of_nat (sr s1)) (Z.of_nat (sc s2)) (c_window_arg u) (cell u s1 s2) (adj_penalty u) (psi_1b u) (psi_2b u) (sr s1).
